@@ -123,6 +123,47 @@ def programs():
 
     progs["set_valued_params"] = set_tops
 
+    # sets of sets (`<` on sets is the subset relation: sorting them by themselves leaves them in hash order)
+    @h.paramclass
+    class NSetP:
+        groups = h.Param(dtype=FrozenSet[FrozenSet[str]], desc="groups", default=frozenset())
+
+    @h.generator
+    def GNSet(params: NSetP) -> h.Module:
+        mod = h.Module()
+        mod.p = h.Port(width=1 + len(params.groups))
+        return mod
+
+    def nset_tops():
+        tops = [GNSet(groups=frozenset([frozenset(["alpha", "beta"]), frozenset(["gamma"]), frozenset(["delta", "epsilon", "zeta"]), frozenset(["eta", "theta"])])),
+                GNSet(groups=frozenset([frozenset(["x"]), frozenset(["y", "z"])]))]
+        top = h.Module(name="NSetTop")
+        for k, t in enumerate(tops):
+            top.add(t(p=top.add(h.Signal(width=t.p.width), name=f"s{k}")), name=f"i{k}")
+        return top
+
+    progs["nested_set_params"] = nset_tops
+
+    # the same numbers written differently, exported earlier in the process by *another* design — in every second interpreter only:
+    # what a design exports as does not depend on what equal-valued numbers other designs exported before
+    def after_other_spelling():
+        from decimal import Decimal
+        from hdl21.prefix import UNIT, µ
+
+        def design(vals, name):
+            top = h.Module(name=name)
+            top.p, top.n = h.Signals(2)
+            for k, v in enumerate(vals):
+                top.add(h.R(r=v)(p=top.p, n=top.n), name=f"r{k}")
+            top.add(h.Vdc(dc=vals[0], ac=vals[1])(p=top.p, n=top.n), name="v")
+            return top
+
+        if int(os.environ.get("PYTHONHASHSEED", "0") or 0) % 2:
+            h.to_proto(design([1500 * UNIT, h.Prefixed(number=Decimal("2.50"), prefix=MILLI), 1000 * µ, h.Prefixed(number=Decimal("1E+3"), prefix=UNIT)], "Earlier"))
+        return design([h.Prefixed(number=Decimal("1.5"), prefix=K), h.Prefixed(number=Decimal("2.5"), prefix=MILLI), 1 * MILLI, 1 * K], "Later")
+
+    progs["after_other_spelling"] = after_other_spelling
+
     # generators with caching disabled: a library cell that earlier, unrelated designs of the same process have used too
     @h.paramclass
     class BufP:
